@@ -208,7 +208,7 @@ def conclude(pid, P, args, seed, results, wall, known, baseline):
         samples=samples[:40],
         known_findings_reported=[k.get('obligation') for k, _, _ in known_hits],
         undecided=undecided,
-        explanation=P.get('explanation', ''),
+        explanation=P.get('explanation') or 'Deductive obligations (Verus/Kani) and bounded native obligations are reported separately in by_backend; bounded ones are never counted as discharged.',
         exhaustive=False,
     )
     if evaluations:
